@@ -1,4 +1,5 @@
 import PyomaVerif.Lemmas.UncTable
+import PyomaVerif.Lemmas.EigFirstOrder
 import PyomaVerif.Props.C17Vec
 import PyomaVerif.Lemmas.FreeVib
 /-!
@@ -449,5 +450,535 @@ theorem C17_fxMap_fnOf_xiOf (dt : ℝ) (q : Fin 2 → ℝ) (lamc : Cpx ℚ) (abs
     calc _ ≤ |100 * ((lamc.re : ℝ) - (Unc.lamC dt q).re)| + |-(fxMap dt q 1) * (‖Unc.lamC dt q‖ - absl)| :=
           abs_add_le _ _
       _ = _ := by rw [abs_mul, abs_mul, abs_neg]; simp
+
+/-! ## 6. Existence of the first-order identification (simple eigenvalue) -/
+
+section Exists
+open Matrix TrivSqZeroExt
+variable {R K : Type} [Field R] [Inhabited R] [Field K]
+
+/-- **First-order eigen-triple of a simple eigenvalue** (what `FirstOrderIdent` assumed): over a field,
+    `A₀φ₀ = λ₀φ₀`, `χ₀ᵀA₀ = λ₀χ₀ᵀ`, `χ₀·φ₀ ≠ 0` and a one-dimensional eigenspace (given `χ₀·φ₀ ≠ 0` this is
+    algebraic multiplicity one) ⇒ for every `A₁` there are `λ₁`, `φ₁`, `χ₁` with
+    `(A₀+εA₁)(φ₀+εφ₁) = (λ₀+ελ₁)(φ₀+εφ₁)` and `(χ₀+εχ₁)ᵀ(A₀+εA₁) = (λ₀+ελ₁)(χ₀+εχ₁)ᵀ` over the dual numbers
+    (`range(A₀−λ₀) = ker(χ₀ᵀ·)` by rank–nullity, `rank(A₀−λ₀)ᵀ = rank(A₀−λ₀)`). -/
+theorem C17_eig_first_order_exists {n : Nat} (A : Matrix (Fin n) (Fin n) (DualNumber K))
+    (φ0 χ0 : Fin n → K) (l0 : K)
+    (hr : mfst A *ᵥ φ0 = l0 • φ0) (hl : χ0 ᵥ* mfst A = l0 • χ0) (hne : χ0 ⬝ᵥ φ0 ≠ 0)
+    (hs : ∀ u, mfst A *ᵥ u = l0 • u → ∃ c : K, u = c • φ0) :
+    ∃ (lam : DualNumber K) (φ χ : Fin n → DualNumber K),
+      lam.fst = l0 ∧ vfst φ = φ0 ∧ vfst χ = χ0 ∧
+      A *ᵥ φ = lam • φ ∧ χ ᵥ* A = lam • χ ∧ (χ ⬝ᵥ φ).fst ≠ 0 :=
+  eig_first_order_exists A φ0 χ0 l0 hr hl hne hs
+
+/-- **`FirstOrderIdent` holds for EVERY perturbation direction, from value-level contracts only.**
+    If the recorded factors satisfy their exactness contracts — exact singular triples `b < n` with unit
+    vectors, `Ki` the exact inverse of eq. 28, `rs = 1/√σ`, `sq = √σ` (`SvExact`), `OO` the exact inverse of
+    `O↑ₙᵀO↑ₙ` — and `(lam0, phi, chi)` is an exact eigen-triple of `A₀ = OO·O↑ₙᵀ·O↓ₙ` with `χ·φ ≠ 0` whose
+    eigenspace is one-dimensional (a SIMPLE eigenvalue), then for every `ΔH` of the shape of `H` and every
+    factor `T` whose column `k` is `vec_c(ΔH)` a first-order identification exists, with
+    `λ̃ = lam0 + ε·(…)`.  So the hypothesis `hid` of `C17_variance_is_sum_of_squares`,
+    `C17_table_variance`, `C17_fncov_of_factor` is implied by the value-level contracts plus
+    simplicity of the eigenvalue.  Stronger than the property's premise: simplicity (the code divides by
+    `χ·φ`, which vanishes for a defective eigenvalue) and exactness of the LAPACK records. -/
+theorem C17_first_order_ident_exists (ι : R →+* K) (H dH T U V : Mat R) (l r p N n : Nat)
+    (sq sig rs : Nat → R) (Ki : Nat → Mat R) (OO : Mat R) (phi chi : Nat → K) (lam0 : K) (k : Nat)
+    (hk : k < T.c) (hcol : ∀ m, m < dH.c * dH.r → T.e m k = vecC dH m)
+    (hdr : dH.r = H.r) (hdc : dH.c = H.c)
+    (hr : H.r = (p + 1) * l) (hc : H.c = (p + 1) * r) (h0 : 0 < H.c) (h2 : (2 : R) ≠ 0)
+    (hn : n ≤ N) (hUr : U.r = H.r)
+    (hsv : ∀ b, b < n → SvExact H (Ki b) (Unc.col U b) (Unc.col V b) (sig b) (rs b) (sq b))
+    (hOc : OO.c = n) (hOO : toMx n n OO.e * toMx n n (ooArg (obsOf U sq N) l n).e = 1)
+    (hr' : ((toMx n n OO.e * ((toMx (p * l) n (upPart (obsOf U sq N) l).e)ᵀ
+              * toMx (p * l) n (dnPart (obsOf U sq N) l).e)).map ι) *ᵥ (fun j : Fin n => phi j.1)
+            = lam0 • fun j : Fin n => phi j.1)
+    (hl' : (fun j : Fin n => chi j.1) ᵥ* ((toMx n n OO.e * ((toMx (p * l) n
+              (upPart (obsOf U sq N) l).e)ᵀ * toMx (p * l) n (dnPart (obsOf U sq N) l).e)).map ι)
+            = lam0 • fun j : Fin n => chi j.1)
+    (hne : (fun j : Fin n => chi j.1) ⬝ᵥ (fun j : Fin n => phi j.1) ≠ 0)
+    (hsimple : ∀ u : Fin n → K,
+      ((toMx n n OO.e * ((toMx (p * l) n (upPart (obsOf U sq N) l).e)ᵀ
+              * toMx (p * l) n (dnPart (obsOf U sq N) l).e)).map ι) *ᵥ u = lam0 • u →
+      ∃ c : K, u = c • fun j : Fin n => phi j.1) :
+    ∃ lam : DualNumber K,
+      FirstOrderIdent ι H dH T U V l r p N n sq sig rs Ki OO phi chi k lam ∧ lam.fst = lam0 := by
+  obtain ⟨dr, dc, de⟩ := dH
+  simp only at hdr hdc
+  subst hdr hdc
+  -- bridged matrices and the closed-form first-order singular triples
+  set Hm : Matrix (Fin H.r) (Fin H.c) R := toMx H.r H.c H.e with hHm
+  set dHm : Matrix (Fin H.r) (Fin H.c) R := toMx H.r H.c de with hdHm
+  set lst : Fin H.c := lastIx H.c h0 with hlst
+  let ub : Nat → Fin H.r → R := fun b i => Unc.col U b i.1
+  let vb : Nat → Fin H.c → R := fun b j => Unc.col V b j.1
+  let Kim : Nat → Matrix (Fin H.c) (Fin H.c) R := fun b => toMx H.c H.c (Ki b).e
+  let ud0 : Nat → Fin H.r → DualNumber R := fun b =>
+    dvec (ub b) (svDu Hm (ub b) (vb b) (sig b) lst (Kim b) dHm)
+  let vd0 : Nat → Fin H.c → DualNumber R := fun b =>
+    dvec (vb b) (svDv Hm (ub b) (vb b) (sig b) lst (Kim b) dHm)
+  let dσ : Nat → R := fun b => svDsig (ub b) (vb b) dHm
+  let ud : Nat → Nat → DualNumber R := fun b i => if h : i < H.r then ud0 b ⟨i, h⟩ else 0
+  let vd : Nat → Nat → DualNumber R := fun b j => if h : j < H.c then vd0 b ⟨j, h⟩ else 0
+  let sd : Nat → DualNumber R := fun b => inl (sig b) + inr (dσ b)
+  let s : Nat → DualNumber R := fun b => inl (sq b) + inr (dσ b / (2 * sq b))
+  have eu : ∀ b, (fun i : Fin H.r => ud b i.1) = ud0 b := by
+    intro b; funext i; exact dif_pos i.2
+  have ev : ∀ b, (fun j : Fin H.c => vd b j.1) = vd0 b := by
+    intro b; funext j; exact dif_pos j.2
+  have hsvd : ∀ b, b < n → SvFirstOrder H ⟨H.r, H.c, de⟩ (Ki b) (Unc.col U b) (Unc.col V b) (sig b)
+      (rs b) (ud b) (vd b) (sd b) (s b) := by
+    intro b hb
+    have hx := hsv b hb
+    have hσ : sig b ≠ 0 := by
+      intro h; have := hx.rs_sq; rw [h, mul_zero] at this; exact zero_ne_one this
+    have hsq0 : sq b ≠ 0 := by
+      intro h; have := hx.sq_rs; rw [h, zero_mul] at this; exact zero_ne_one this
+    have hsqsq : sq b * sq b = sig b := by
+      have h1 : sq b * sq b * (rs b * rs b * sig b) = sig b := by
+        have : sq b * sq b * (rs b * rs b * sig b) = (sq b * rs b) * (sq b * rs b) * sig b := by ring
+        rw [this, hx.sq_rs]; ring
+      rwa [hx.rs_sq, mul_one] at h1
+    have hK := hx.ki_inv
+    rw [C17_kiArg_bridge H H.c (Unc.col V b) (sig b) rfl h0] at hK
+    obtain ⟨a1, a2, a3, a4⟩ := C17_sv_sens_exists Hm dHm (ub b) (vb b) (sig b) lst (Kim b) hσ hx.Hv
+      hx.uH hx.uu hx.vv hK
+    refine ⟨hx.rs_sq, hx.ki_cols, hx.ki_inv, ?_, ?_, by simp [sd], ?_, ?_, ?_, ?_, ?_, by simpa [s] using hx.sq_rs⟩
+    · intro i hi
+      have hi' : i < H.r := hi
+      show (if h : i < H.r then ud0 b ⟨i, h⟩ else 0).fst = _
+      rw [dif_pos hi']
+      simp [ud0, dvec, ub]
+    · intro j hj
+      have hj' : j < H.c := hj
+      show (if h : j < H.c then vd0 b ⟨j, h⟩ else 0).fst = _
+      rw [dif_pos hj']
+      simp [vd0, dvec, vb]
+    · show dmat Hm dHm *ᵥ (fun j : Fin H.c => vd b j.1) = sd b • fun i : Fin H.r => ud b i.1
+      rw [eu, ev]; exact a1
+    · show (fun i : Fin H.r => ud b i.1) ᵥ* dmat Hm dHm = sd b • fun j : Fin H.c => vd b j.1
+      rw [eu, ev]; exact a2
+    · show (fun i : Fin H.r => ud b i.1) ⬝ᵥ (fun i : Fin H.r => ud b i.1) = 1
+      rw [eu]; exact a3
+    · show (fun j : Fin H.c => vd b j.1) ⬝ᵥ (fun j : Fin H.c => vd b j.1) = 1
+      rw [ev]; exact a4
+    · apply TrivSqZeroExt.ext
+      · simpa [s, sd] using hsqsq
+      · simp [s, sd]
+        field_simp
+        ring
+  have hsq : ∀ b, b < n → (s b).fst = sq b := fun b _ => by simp [s]
+  have hu : ∀ b, b < n → ∀ i, i < H.r → (ud b i).fst = Unc.col U b i :=
+    fun b hb i hi => (hsvd b hb).u_fst i hi
+  obtain ⟨W, hW, hW0⟩ := C17_first_order_inverse_exists ι (⟨H.r, H.c, de⟩ : Mat R) U l p N n sq hr hUr
+    ud s hu hsq OO hOO
+  set A := W * ((dlift ι (obsD 0 (p * l) n s ud))ᵀ * dlift ι (obsD l (p * l) n s ud)) with hA
+  have hpl : p * l + l = H.r := by rw [hr]; ring
+  have hup : toMx (p * l) n (upPart (obsOf U sq N) l).e = mfst (obsD 0 (p * l) n s ud) := by
+    ext t b
+    have ht : 0 + t.1 < H.r := by have := t.2; omega
+    simp only [toMx, upPart, rowSlice, obsOf, mfst, Matrix.map_apply, obsD, fst_mul, hu b.1 b.2 _ ht,
+      hsq b.1 b.2, Unc.col]
+    ring
+  have hdn : toMx (p * l) n (dnPart (obsOf U sq N) l).e = mfst (obsD l (p * l) n s ud) := by
+    ext t b
+    have ht : l + t.1 < H.r := by have := t.2; omega
+    simp only [toMx, dnPart, rowSlice, obsOf, mfst, Matrix.map_apply, obsD, fst_mul, hu b.1 b.2 _ ht,
+      hsq b.1 b.2, Unc.col]
+    ring
+  have hA0 : mfst A = (toMx n n OO.e * ((toMx (p * l) n (upPart (obsOf U sq N) l).e)ᵀ
+      * toMx (p * l) n (dnPart (obsOf U sq N) l).e)).map ι := by
+    rw [hA, mfst_mul, mfst_mul, mfst_transpose, mfst_dlift, mfst_dlift, hW0, hup, hdn, Matrix.map_mul,
+      Matrix.map_mul, Matrix.transpose_map]
+  rw [← hA0] at hr' hl' hsimple
+  obtain ⟨lam, φ, χ, hlam, hφ, hχ, hev, hlv, hne'⟩ :=
+    eig_first_order_exists A (fun j : Fin n => phi j.1) (fun j : Fin n => chi j.1) lam0 hr' hl' hne
+      hsimple
+  refine ⟨lam, ⟨hk, hcol, rfl, rfl, hr, hc, h0, h2, hn, hUr, hOc, hOO, ud, vd, sd, s, W, A, φ, χ, hsvd, hsq,
+    fun j => congrFun hφ j, fun j => congrFun hχ j, hW, hA, hev, hlv, hne'⟩, hlam⟩
+
+end Exists
+
+/-! ## 7. The composed statement from value-level contracts only -/
+
+section Exact
+open Matrix TrivSqZeroExt
+
+/-- **`Fn_cov[jj, ii]` of the factor of `build_hank` is `Σ_k (D fn · ε_k λ)²` — no first-order object assumed.**
+    `T` the factor `covFactor` builds from `Yf`, `Yp` (`H = Yf·Ypᵀ`, `ΔH_k = (H_k − H)·s`); tables from the
+    model of `SSI_poles` on the model's `Q1..Q3` of `SSI_fast`.  If the recorded factors are exact
+    (`SvExact` for the singular triples `b < ii`, `OO` the inverse of `O↑ᵀO↑` at order `ii`, `lam_c`, `np.abs`
+    exact) and the `jj`-th recorded eigen-triple of order `ii` is an exact eigen-triple of
+    `A₀ = OO·O↑ᵀ·O↓` for a SIMPLE eigenvalue off the branch cut of `log` (`log λ ≠ 0`), then for every block
+    `k < nb` a first-order identification of `H + ε·ΔH_k` exists, its eigenvalue is `lam_d[jj] + ε·ε_k(λ)`,
+    and the stored variance is the sum over the blocks of the squared derivative of `fn` along `ε_k(λ)`. -/
+theorem C17_fncov_of_factor_exact (dt : ℝ) (Yf Yp : Mat ℝ) (nb N : Nat) (s : ℝ) (T U V : Mat ℝ)
+    (hT : covFactor Yf Yp nb N s = .ok T) (l r p ordmax : Nat)
+    (hYf : Yf.r = (p + 1) * l) (hYp : Yp.r = (p + 1) * r) (hr0 : 0 < Yp.r) (hUr : U.r = Yf.r)
+    (sq sig rs : Nat → ℝ) (Ki : Nat → Mat ℝ) (recs : Nat → OrderRec ℝ ℂ) (t : CovTabs ℝ)
+    (hnp : ∀ ii, 1 ≤ ii → ii ≤ ordmax → (recs ii).np ≤ ordmax)
+    (ii jj : Nat) (h1 : 1 ≤ ii) (h2 : ii ≤ ordmax) (hj : jj < (recs ii).np)
+    (hlc : (recs ii).lamc jj = lamC dt ![((recs ii).lamd jj).re, ((recs ii).lamd jj).im])
+    (habsd : (recs ii).absd jj = ‖(recs ii).lamd jj‖)
+    (habsc : (recs ii).absc jj = ‖(recs ii).lamc jj‖)
+    (hsv : ∀ b, b < ii → SvExact (mulT Yf Yp) (Ki b) (Unc.col U b) (Unc.col V b) (sig b) (rs b) (sq b))
+    (hOc : (recs ii).oo.c = ii)
+    (hOO : toMx ii ii (recs ii).oo.e * toMx ii ii (ooArg (obsOf U sq ordmax) l ii).e = 1)
+    (hr' : ((toMx ii ii (recs ii).oo.e * ((toMx (p * l) ii (upPart (obsOf U sq ordmax) l).e)ᵀ
+              * toMx (p * l) ii (dnPart (obsOf U sq ordmax) l).e)).map Complex.ofRealHom)
+            *ᵥ (fun m : Fin ii => Unc.col (recs ii).rv jj m.1)
+          = (recs ii).lamd jj • fun m : Fin ii => Unc.col (recs ii).rv jj m.1)
+    (hl' : (fun m : Fin ii => (starRingEnd ℂ) ((recs ii).lv.e m.1 jj)) ᵥ*
+            ((toMx ii ii (recs ii).oo.e * ((toMx (p * l) ii (upPart (obsOf U sq ordmax) l).e)ᵀ
+              * toMx (p * l) ii (dnPart (obsOf U sq ordmax) l).e)).map Complex.ofRealHom)
+          = (recs ii).lamd jj • fun m : Fin ii => (starRingEnd ℂ) ((recs ii).lv.e m.1 jj))
+    (hne : (fun m : Fin ii => (starRingEnd ℂ) ((recs ii).lv.e m.1 jj))
+            ⬝ᵥ (fun m : Fin ii => Unc.col (recs ii).rv jj m.1) ≠ 0)
+    (hsimple : ∀ u : Fin ii → ℂ,
+      ((toMx ii ii (recs ii).oo.e * ((toMx (p * l) ii (upPart (obsOf U sq ordmax) l).e)ᵀ
+              * toMx (p * l) ii (dnPart (obsOf U sq ordmax) l).e)).map Complex.ofRealHom) *ᵥ u
+          = (recs ii).lamd jj • u →
+      ∃ c : ℂ, u = c • fun m : Fin ii => Unc.col (recs ii).rv jj m.1)
+    (hs : (recs ii).lamd jj ∈ Complex.slitPlane)
+    (hμ : lamC dt ![((recs ii).lamd jj).re, ((recs ii).lamd jj).im] ≠ 0) :
+    let Obs := obsOf U sq ordmax
+    let Q := q1234 (mulT Yf Yp) T (upPart Obs l) (dnPart Obs l) l r p ordmax U V sig rs Ki
+    covTables Complex.ofRealHom Complex.re Complex.im (starRingEnd ℂ) (fun x : ℝ => |x|) Real.pi dt
+        ordmax Q.1 Q.2.1 Q.2.2.1 recs = some t →
+    ∃ lam : Nat → DualNumber ℂ,
+      (∀ k, k < nb → FirstOrderIdent Complex.ofRealHom (mulT Yf Yp) (devMat Yf Yp N nb s k) T U V l r p
+          ordmax ii sq sig rs Ki (recs ii).oo (Unc.col (recs ii).rv jj)
+          (fun m => (starRingEnd ℂ) ((recs ii).lv.e m jj)) k (lam k) ∧
+        (lam k).fst = (recs ii).lamd jj) ∧
+      t.fn jj ii = some (∑ k ∈ range nb,
+        (fderiv ℝ (fxMap dt) ![((recs ii).lamd jj).re, ((recs ii).lamd jj).im]
+          ![(lam k).snd.re, (lam k).snd.im] 0) ^ 2) := by
+  intro Obs Q ht
+  have hc : T.c = nb := (C17_factor_shape Yf Yp nb N s T hT).2
+  have hex : ∀ k, k < nb → ∃ lam : DualNumber ℂ,
+      FirstOrderIdent Complex.ofRealHom (mulT Yf Yp) (devMat Yf Yp N nb s k) T U V l r p ordmax ii sq sig rs
+        Ki (recs ii).oo (Unc.col (recs ii).rv jj) (fun m => (starRingEnd ℂ) ((recs ii).lv.e m jj)) k lam ∧
+      lam.fst = (recs ii).lamd jj := fun k hk =>
+    C17_first_order_ident_exists Complex.ofRealHom (mulT Yf Yp) (devMat Yf Yp N nb s k) T U V l r p ordmax
+      ii sq sig rs Ki (recs ii).oo _ _ ((recs ii).lamd jj) k (hc ▸ hk)
+      (fun m _ => C17_factor_column_is_vec Yf Yp nb N s T hT k m) rfl rfl hYf hYp hr0 two_ne_zero h2 hUr
+      hsv hOc hOO hr' hl' hne hsimple
+  choose lam hlam using hex
+  refine ⟨fun k => if h : k < nb then lam k h else 0, fun k hk => ?_, ?_⟩
+  · simp only [dif_pos hk]
+    exact hlam k hk
+  · have := C17_table_variance dt (mulT Yf Yp) T U V (fun k => devMat Yf Yp N nb s k) l r p ordmax sq sig
+      rs Ki recs t hnp ii jj h1 h2 hj hlc habsd habsc (fun k => if h : k < nb then lam k h else 0)
+      (fun k hk => by
+        have hk' : k < nb := hc ▸ hk
+        simp only [dif_pos hk']
+        exact (hlam k hk').1)
+      (fun k hk => by
+        have hk' : k < nb := hc ▸ hk
+        simp only [dif_pos hk']
+        exact (hlam k hk').2) hs hμ ht
+    rw [this, hc]
+
+/-- **The same through `build_hank`**: `(H, T) = build_hank(Y, Yref, br = p, "cov_mm", calc_unc=True, nb)` as the
+    model `buildHankUnc` computes them; `l = Y.shape[0]`, `r = Yref.shape[0] ≥ 1`.  All shape contracts hold by
+    construction; what is assumed is exactness of the recorded factors and simplicity of the eigenvalue. -/
+theorem C17_fncov_of_build_hank_exact (dt : ℝ) (Y Yref : Mat ℝ) (p nb : Nat) (s0 s : ℝ) (H T U V : Mat ℝ)
+    (hB : buildHankUnc Y Yref p nb s0 s = (H, .ok T)) (hr0 : 0 < Yref.r) (ordmax : Nat)
+    (hUr : U.r = (p + 1) * Y.r)
+    (sq sig rs : Nat → ℝ) (Ki : Nat → Mat ℝ) (recs : Nat → OrderRec ℝ ℂ) (t : CovTabs ℝ)
+    (hnp : ∀ ii, 1 ≤ ii → ii ≤ ordmax → (recs ii).np ≤ ordmax)
+    (ii jj : Nat) (h1 : 1 ≤ ii) (h2 : ii ≤ ordmax) (hj : jj < (recs ii).np)
+    (hlc : (recs ii).lamc jj = lamC dt ![((recs ii).lamd jj).re, ((recs ii).lamd jj).im])
+    (habsd : (recs ii).absd jj = ‖(recs ii).lamd jj‖)
+    (habsc : (recs ii).absc jj = ‖(recs ii).lamc jj‖)
+    (hsv : ∀ b, b < ii → SvExact H (Ki b) (Unc.col U b) (Unc.col V b) (sig b) (rs b) (sq b))
+    (hOc : (recs ii).oo.c = ii)
+    (hOO : toMx ii ii (recs ii).oo.e * toMx ii ii (ooArg (obsOf U sq ordmax) Y.r ii).e = 1)
+    (hr' : ((toMx ii ii (recs ii).oo.e * ((toMx (p * Y.r) ii (upPart (obsOf U sq ordmax) Y.r).e)ᵀ
+              * toMx (p * Y.r) ii (dnPart (obsOf U sq ordmax) Y.r).e)).map Complex.ofRealHom)
+            *ᵥ (fun m : Fin ii => Unc.col (recs ii).rv jj m.1)
+          = (recs ii).lamd jj • fun m : Fin ii => Unc.col (recs ii).rv jj m.1)
+    (hl' : (fun m : Fin ii => (starRingEnd ℂ) ((recs ii).lv.e m.1 jj)) ᵥ*
+            ((toMx ii ii (recs ii).oo.e * ((toMx (p * Y.r) ii (upPart (obsOf U sq ordmax) Y.r).e)ᵀ
+              * toMx (p * Y.r) ii (dnPart (obsOf U sq ordmax) Y.r).e)).map Complex.ofRealHom)
+          = (recs ii).lamd jj • fun m : Fin ii => (starRingEnd ℂ) ((recs ii).lv.e m.1 jj))
+    (hne : (fun m : Fin ii => (starRingEnd ℂ) ((recs ii).lv.e m.1 jj))
+            ⬝ᵥ (fun m : Fin ii => Unc.col (recs ii).rv jj m.1) ≠ 0)
+    (hsimple : ∀ u : Fin ii → ℂ,
+      ((toMx ii ii (recs ii).oo.e * ((toMx (p * Y.r) ii (upPart (obsOf U sq ordmax) Y.r).e)ᵀ
+              * toMx (p * Y.r) ii (dnPart (obsOf U sq ordmax) Y.r).e)).map Complex.ofRealHom) *ᵥ u
+          = (recs ii).lamd jj • u →
+      ∃ c : ℂ, u = c • fun m : Fin ii => Unc.col (recs ii).rv jj m.1)
+    (hs : (recs ii).lamd jj ∈ Complex.slitPlane)
+    (hμ : lamC dt ![((recs ii).lamd jj).re, ((recs ii).lamd jj).im] ≠ 0) :
+    let Obs := obsOf U sq ordmax
+    let Q := q1234 H T (upPart Obs Y.r) (dnPart Obs Y.r) Y.r Yref.r p ordmax U V sig rs Ki
+    covTables Complex.ofRealHom Complex.re Complex.im (starRingEnd ℂ) (fun x : ℝ => |x|) Real.pi dt
+        ordmax Q.1 Q.2.1 Q.2.2.1 recs = some t →
+    ∃ lam : Nat → DualNumber ℂ,
+      (∀ k, k < nb → (lam k).fst = (recs ii).lamd jj) ∧
+      t.fn jj ii = some (∑ k ∈ range nb,
+        (fderiv ℝ (fxMap dt) ![((recs ii).lamd jj).re, ((recs ii).lamd jj).im]
+          ![(lam k).snd.re, (lam k).snd.im] 0) ^ 2) := by
+  unfold buildHankUnc at hB
+  obtain ⟨rfl, hT⟩ := Prod.mk.inj hB
+  intro Obs Q ht
+  obtain ⟨lam, a, b⟩ := C17_fncov_of_factor_exact dt (hankYf Y p s0) (hankYp Y.c Yref p s0) nb
+    (Y.c - p - (p + 1)) s T U V hT Y.r Yref.r p ordmax rfl rfl (Nat.mul_pos (Nat.succ_pos p) hr0) hUr sq sig
+    rs Ki recs t hnp ii jj h1 h2 hj hlc habsd habsc hsv hOc hOO hr' hl' hne hsimple hs hμ ht
+  exact ⟨lam, fun k hk => (a k hk).2, b⟩
+
+end Exact
+
+/-! ## Non-vacuity -/
+
+namespace ExTab
+open PV.C17.ExScale
+
+/-- `Q1..Q3` of the order-2 instance `ExScale` (two channels, one block row) -/
+def Q : Mat ℚ × Mat ℚ × Mat ℚ × Mat ℚ :=
+  q1234 H T (upPart (obsOf U sq 2) 2) (dnPart (obsOf U sq 2) 2) 2 1 1 2 U V sig rs Ki
+/-- arbitrary per-order records with `len(lam_c) = ii` -/
+def recs : Nat → OrderRec ℚ ℚ := fun ii =>
+  ⟨ii, fun j => 1 + j, fun j => 1 / 2 + j, fun _ => 2, fun _ => 3, ⟨2, 2, fun i j => 1 + i + 2 * j⟩,
+    ⟨2, 2, fun i j => 1 + 2 * i + j⟩, ⟨ii, ii, OO.e⟩⟩
+
+/-- `C17_table_cells` on `ordmax = 2`: the hypothesis holds (`len(lam_c) = ii ≤ 2`), the run succeeds, the three
+    written cells `(0,1)`, `(0,2)`, `(1,2)` hold three different non-zero values, column 0 and cell `(1,1)`
+    are NaN (`absR := id`, `im := x/3`: the theorem is for arbitrary `abs`, `real`, `imag`). -/
+example : ∃ t, covTables (K := ℚ) id id (fun x => x / 3) id id 3 (1 / 100) 2 Q.1 Q.2.1 Q.2.2.1 recs
+      = some t ∧
+    t.fn 0 1 = some (390625 / 944784) ∧ t.fn 0 2 = some (15625 / 11573604) ∧
+    t.fn 1 2 = some (15625 / 729) ∧ t.fn 0 0 = none ∧ t.fn 1 0 = none ∧ t.fn 1 1 = none ∧
+    t.xi 1 1 = none ∧ t.xi 1 2 = some (-1562500 / 6561) := by
+  have hnp : ∀ ii, 1 ≤ ii → ii ≤ 2 → (recs ii).np ≤ 2 := fun ii _ h => h
+  obtain ⟨t, h, hfn, hxi⟩ := C17_table_cells (K := ℚ) id id (fun x => x / 3) id id 3 (1 / 100) 2
+    Q.1 Q.2.1 Q.2.2.1 recs hnp
+  refine ⟨t, h, ?_, ?_, ?_, ?_, ?_, ?_, ?_, ?_⟩
+  · rw [hfn]; decide +kernel
+  · rw [hfn]; decide +kernel
+  · rw [hfn]; decide +kernel
+  · rw [hfn]; decide +kernel
+  · rw [hfn]; decide +kernel
+  · rw [hfn]; decide +kernel
+  · rw [hxi]; decide +kernel
+  · rw [hxi]; decide +kernel
+
+/-- `C17_table_index_error`: an order-1 record claiming two poles with `ordmax = 1`. -/
+example : covTables (K := ℚ) id id (fun x => x / 3) id id 3 (1 / 100) 1 Q.1 Q.2.1 Q.2.2.1
+    (fun _ => recs 2) = none :=
+  C17_table_index_error _ _ _ _ _ _ _ 1 _ _ _ _ (le_refl 1) (by decide)
+
+end ExTab
+
+/-! ### existence of the first-order identification: order 2, arbitrary direction (over `ℚ`) -/
+
+namespace ExTab
+open PV.C17.ExScale Matrix TrivSqZeroExt
+
+/-- **`C17_first_order_ident_exists` at order `n = 2`, for EVERY direction `ΔH`** (the instance `ExScale`: two
+    channels, exact rational SVD, `A₀ = [[1/3, 1/3], [2/3, 2/3]]` with the simple eigenvalue `1`,
+    `φ = (1, 2)`, `χ = (1, 1)`): all hypotheses hold jointly, so `FirstOrderIdent` — so far exhibited at order
+    1 and along `ΔH = H` only — is satisfiable for arbitrary entries `f` of `ΔH`. -/
+theorem ident2_any (f : Nat → Nat → ℚ) :
+    ∃ lam : DualNumber ℚ,
+      FirstOrderIdent (RingHom.id ℚ) H ⟨4, 2, f⟩ ⟨8, 1, fun m _ => vecC (⟨4, 2, f⟩ : Mat ℚ) m⟩ U V 2 1 1 2 2
+        sq sig rs Ki OO phi chi 0 lam ∧ lam.fst = 1 := by
+  have hA : ((toMx 2 2 OO.e * ((toMx (1 * 2) 2 (upPart (obsOf U sq 2) 2).e)ᵀ
+      * toMx (1 * 2) 2 (dnPart (obsOf U sq 2) 2).e)).map (RingHom.id ℚ))
+      = !![1 / 3, 1 / 3; 2 / 3, 2 / 3] := by decide +kernel
+  refine C17_first_order_ident_exists (RingHom.id ℚ) H ⟨4, 2, f⟩ _ U V 2 1 1 2 2 sq sig rs Ki OO phi chi 1 0
+    Nat.one_pos (fun m _ => rfl) rfl rfl rfl rfl Nat.two_pos two_ne_zero (le_refl 2) rfl svExact rfl
+    (by decide +kernel) (by decide +kernel) (by decide +kernel) (by decide +kernel) ?_
+  intro u hu
+  rw [hA] at hu
+  have h0 := congrFun hu 0
+  simp [Matrix.mulVec, dotProduct, Fin.sum_univ_two] at h0
+  refine ⟨u 0, ?_⟩
+  funext j
+  fin_cases j
+  · simp [phi]
+  · simp [phi]; linarith
+
+/-- … and on the generic direction `ΔH[i, j] = i + 2j + 1` the first-order eigenvalue perturbation is a
+    non-zero number, equal to the model's `JaohT[0]` (`C17_lambda_first_order_bundled`). -/
+example : ∃ lam : DualNumber ℚ,
+    FirstOrderIdent (RingHom.id ℚ) H ⟨4, 2, fun i j => (i + 2 * j + 1 : ℕ)⟩
+      ⟨8, 1, fun m _ => vecC (⟨4, 2, fun i j => ((i + 2 * j + 1 : ℕ) : ℚ)⟩ : Mat ℚ) m⟩ U V 2 1 1 2 2
+      sq sig rs Ki OO phi chi 0 lam ∧ lam.fst = 1 ∧ lam.snd ≠ 0 := by
+  obtain ⟨lam, h, h0⟩ := ident2_any (fun i j => ((i + 2 * j + 1 : ℕ) : ℚ))
+  refine ⟨lam, h, h0, ?_⟩
+  have := C17_lambda_first_order_bundled _ _ _ _ _ _ _ _ _ _ _ _ _ _ _ _ _ _ _ _ h
+  simp only [h0] at this
+  rw [← this]
+  decide +kernel
+
+end ExTab
+
+/-! ### the composed statement over `ℝ`/`ℂ`: factor of `covFactor`, table, exact contracts (order 1) -/
+
+namespace ExReal
+open Matrix TrivSqZeroExt
+
+/-- stacked data with `Yf·Ypᵀ = ExVec.H` (one channel, one block row): `Yf = H`, `Yp = I`; two columns,
+    `N = 3`, `nb = 2` blocks of `Nb = 1` column. -/
+noncomputable def Yf : Mat ℝ := ExVec.H ℝ
+noncomputable def Yp : Mat ℝ := ⟨2, 2, fun i j => if i = j then 1 else 0⟩
+noncomputable def recs (dt : ℝ) : Nat → OrderRec ℝ ℂ := fun _ =>
+  ⟨1, fun _ => 4 / 3, fun _ => lamC dt ![(4 / 3 : ℂ).re, (4 / 3 : ℂ).im], fun _ => ‖(4 / 3 : ℂ)‖,
+    fun _ => ‖lamC dt ![(4 / 3 : ℂ).re, (4 / 3 : ℂ).im]‖, ⟨1, 1, fun _ _ => 1⟩, ⟨1, 1, fun _ _ => 1⟩,
+    ExVec.OO ℝ⟩
+
+theorem hH : toMx 2 2 (mulT Yf Yp).e = toMx 2 2 (ExVec.H ℝ).e := by
+  ext i j
+  fin_cases i <;> fin_cases j <;>
+    simp [toMx, mulT, Yf, Yp, sumTo_eq, ExVec.H]
+
+theorem svExact : SvExact (mulT Yf Yp) (ExVec.Ki ℝ) (Unc.col (ExVec.U ℝ) 0) (Unc.col (ExVec.U ℝ) 0) 4
+    (1 / 2) 2 := by
+  obtain ⟨h1, h2, h3⟩ := ExVec.sv_value (R := ℝ)
+  have hK := ExVec.ki_inv (R := ℝ)
+  rw [C17_kiArg_bridge (ExVec.H ℝ) 2 (Unc.col (ExVec.U ℝ) 0) 4 rfl (by decide)] at hK
+  refine ⟨?_, ?_, h3, h3, by norm_num, by norm_num, rfl, ?_⟩
+  · show toMx 2 2 (mulT Yf Yp).e *ᵥ _ = _
+    rw [hH]; exact h1
+  · show _ ᵥ* toMx 2 2 (mulT Yf Yp).e = _
+    rw [hH]; exact h2
+  · show toMx 2 2 (ExVec.Ki ℝ).e * toMx 2 2 (kiArg (mulT Yf Yp) 2 (Unc.col (ExVec.U ℝ) 0) 4).e = 1
+    rw [C17_kiArg_bridge (mulT Yf Yp) 2 (Unc.col (ExVec.U ℝ) 0) 4 rfl (by decide)]
+    show toMx 2 2 (ExVec.Ki ℝ).e * svKarg (toMx 2 2 (mulT Yf Yp).e) _ 4 _ = 1
+    rw [hH]; exact hK
+
+theorem hOO : toMx 1 1 (ExVec.OO ℝ).e * toMx 1 1 (ooArg (obsOf (ExVec.U ℝ) (fun _ => (2 : ℝ)) 1) 1 1).e = 1 := by
+  ext i j
+  have hi : i = 0 := Subsingleton.elim _ _
+  have hj : j = 0 := Subsingleton.elim _ _
+  subst hi hj
+  simp [toMx, ExVec.OO, ooArg, obsOf, Mat.mul, Mat.transpose, ExVec.U, sumTo, Matrix.mul_apply]
+  norm_num
+
+/-- the `1 × 1` state matrix `A₀ = OO·O↑ᵀ·O↓ = 25/36 · 6/5 · 8/5 = 4/3` -/
+theorem hA0 : ((toMx 1 1 (ExVec.OO ℝ).e * ((toMx (1 * 1) 1 (upPart (obsOf (ExVec.U ℝ) (fun _ => (2 : ℝ)) 1) 1).e)ᵀ
+      * toMx (1 * 1) 1 (dnPart (obsOf (ExVec.U ℝ) (fun _ => (2 : ℝ)) 1) 1).e)).map Complex.ofRealHom)
+    = fun _ _ => (4 / 3 : ℂ) := by
+  ext i j
+  simp [toMx, ExVec.OO, obsOf, upPart, dnPart, rowSlice, ExVec.U, Matrix.mul_apply]
+  norm_num
+
+/-- **All hypotheses of `C17_fncov_of_factor_exact` (hence of `C17_fncov_of_factor`, `C17_table_variance`,
+    `C17_first_order_ident_exists` over `ℝ`/`ℂ`) hold jointly**, with a factor that `covFactor` itself
+    builds (two blocks, `s = 1/√2`): the table cell `Fn_cov[0, 1]` of the model run is the sum over the two
+    blocks of the squared directional derivatives of `fn`. -/
+example (dt : ℝ) (hdt : dt = 1 / 100) : ∃ (T : Mat ℝ) (t : CovTabs ℝ) (lam : Nat → DualNumber ℂ),
+    covFactor Yf Yp 2 3 (1 / Real.sqrt 2) = .ok T ∧
+    covTables Complex.ofRealHom Complex.re Complex.im (starRingEnd ℂ) (fun x : ℝ => |x|) Real.pi dt 1
+      (q1234 (mulT Yf Yp) T (upPart (obsOf (ExVec.U ℝ) (fun _ => 2) 1) 1)
+        (dnPart (obsOf (ExVec.U ℝ) (fun _ => 2) 1) 1) 1 1 1 1 (ExVec.U ℝ) (ExVec.U ℝ) (fun _ => 4)
+        (fun _ => 1 / 2) (fun _ => ExVec.Ki ℝ)).1
+      (q1234 (mulT Yf Yp) T (upPart (obsOf (ExVec.U ℝ) (fun _ => 2) 1) 1)
+        (dnPart (obsOf (ExVec.U ℝ) (fun _ => 2) 1) 1) 1 1 1 1 (ExVec.U ℝ) (ExVec.U ℝ) (fun _ => 4)
+        (fun _ => 1 / 2) (fun _ => ExVec.Ki ℝ)).2.1
+      (q1234 (mulT Yf Yp) T (upPart (obsOf (ExVec.U ℝ) (fun _ => 2) 1) 1)
+        (dnPart (obsOf (ExVec.U ℝ) (fun _ => 2) 1) 1) 1 1 1 1 (ExVec.U ℝ) (ExVec.U ℝ) (fun _ => 4)
+        (fun _ => 1 / 2) (fun _ => ExVec.Ki ℝ)).2.2.1 (recs dt) = some t ∧
+    (∀ k, k < 2 → (lam k).fst = (4 / 3 : ℂ)) ∧
+    t.fn 0 1 = some (∑ k ∈ range 2,
+      (fderiv ℝ (fxMap dt) ![(4 / 3 : ℂ).re, (4 / 3 : ℂ).im] ![(lam k).snd.re, (lam k).snd.im] 0) ^ 2) := by
+  obtain ⟨T, hT⟩ : ∃ T, covFactor Yf Yp 2 3 (1 / Real.sqrt 2) = .ok T := ⟨_, rfl⟩
+  have hnp : ∀ ii, 1 ≤ ii → ii ≤ 1 → ((recs dt) ii).np ≤ 1 := fun _ _ _ => le_refl 1
+  obtain ⟨t, ht, -, -⟩ := C17_table_cells (⇑Complex.ofRealHom) Complex.re Complex.im (starRingEnd ℂ)
+    (fun x : ℝ => |x|) Real.pi dt 1
+    (q1234 (mulT Yf Yp) T (upPart (obsOf (ExVec.U ℝ) (fun _ => 2) 1) 1)
+      (dnPart (obsOf (ExVec.U ℝ) (fun _ => 2) 1) 1) 1 1 1 1 (ExVec.U ℝ) (ExVec.U ℝ) (fun _ => 4)
+      (fun _ => 1 / 2) (fun _ => ExVec.Ki ℝ)).1 _ _ (recs dt) hnp
+  have h43 : (Complex.ofRealHom (4 / 3 : ℝ)) = (4 / 3 : ℂ) := by simp
+  have hre : (4 / 3 : ℂ).re = 4 / 3 := by rw [← h43]; simp
+  have him : (4 / 3 : ℂ).im = 0 := by rw [← h43]; simp
+  have hone : (fun m : Fin 1 => (starRingEnd ℂ) (((recs dt) 1).lv.e m.1 0)) = fun _ => (1 : ℂ) := by
+    funext m; simp [recs]
+  have hphi : (fun m : Fin 1 => Unc.col ((recs dt) 1).rv 0 m.1) = fun _ => (1 : ℂ) := by
+    funext m; simp [recs, Unc.col]
+  obtain ⟨lam, h1, h2⟩ := C17_fncov_of_factor_exact dt Yf Yp 2 3 (1 / Real.sqrt 2) T (ExVec.U ℝ) (ExVec.U ℝ)
+    hT 1 1 1 1 rfl rfl Nat.two_pos rfl (fun _ => 2) (fun _ => 4) (fun _ => 1 / 2) (fun _ => ExVec.Ki ℝ)
+    (recs dt) t hnp 1 0 (le_refl 1) (le_refl 1) Nat.one_pos rfl rfl rfl
+    (fun b hb => by
+      obtain rfl : b = 0 := by omega
+      exact svExact)
+    rfl hOO
+    (by
+      rw [show ((recs dt) 1).oo = ExVec.OO ℝ from rfl, hA0, hphi]
+      ext i; simp [Matrix.mulVec, dotProduct, recs])
+    (by
+      rw [show ((recs dt) 1).oo = ExVec.OO ℝ from rfl, hA0, hone]
+      ext i; simp [Matrix.vecMul, dotProduct, recs])
+    (by rw [hone, hphi]; simp [dotProduct])
+    (by
+      intro u _
+      refine ⟨u 0, ?_⟩
+      rw [hphi]
+      funext j
+      rw [Subsingleton.elim j 0]
+      simp)
+    (by
+      show (4 / 3 : ℂ) ∈ Complex.slitPlane
+      rw [Complex.mem_slitPlane_iff]; left; rw [hre]; norm_num)
+    (by
+      show lamC dt ![(4 / 3 : ℂ).re, (4 / 3 : ℂ).im] ≠ 0
+      rw [hre, him, hdt]
+      unfold lamC
+      simp only [Matrix.cons_val_zero, Matrix.cons_val_one, Complex.ofReal_zero, zero_mul, add_zero]
+      have hpos : (0 : ℝ) < Real.log (4 / 3) := Real.log_pos (by norm_num)
+      rw [← Complex.ofReal_log (by norm_num : (0 : ℝ) ≤ 4 / 3), ← Complex.ofReal_mul]
+      exact_mod_cast (mul_pos hpos (by norm_num)).ne')
+    ht
+  exact ⟨T, t, lam, hT, ht, fun k hk => (h1 k hk).2, h2⟩
+
+/-- structural hypotheses of `C17_fncov_of_build_hank[_exact]` on a record (one channel, 6 samples, `p = 1`,
+    `nb = 2`): the model of `build_hank` returns a factor, the reference set is non-empty.  (The exactness
+    hypotheses are exhibited jointly at the `covFactor` level above: no record with a rational SVD of its
+    Hankel matrix was found.) -/
+example : ∃ H T, buildHankUnc (⟨1, 6, fun _ t => ((t * t + 1 : ℕ) : ℝ)⟩ : Mat ℝ)
+    ⟨1, 6, fun _ t => ((t * t + 1 : ℕ) : ℝ)⟩ 1 2 1 1 = (H, .ok T) ∧
+    0 < (⟨1, 6, fun _ t => ((t * t + 1 : ℕ) : ℝ)⟩ : Mat ℝ).r := ⟨_, _, rfl, Nat.one_pos⟩
+
+end ExReal
+
+/-! ### blocks and the pole map -/
+
+namespace ExBlocks
+/-- stacked data with `N − 1 = 5` columns (`N = 6`) -/
+def Yf : Mat ℚ := ⟨2, 5, fun i t => (((t + 1) * (i + 1) + t * t : ℕ) : ℚ)⟩
+def Yp : Mat ℚ := ⟨2, 5, fun j t => (((t + j) % 3 : ℕ) : ℚ) - 1⟩
+
+/-- hypotheses of `C17_block_columns`, both branches: `N = 6`, `nb = 3` (`nb ∣ N`: last block clipped to
+    `Nb − 1 = 1` column, nothing left over) and `N = 6`, `nb = 4` (`nb ∤ N`: four full blocks of one column,
+    `6 mod 4 − 1 = 1` column left over). -/
+example : (1 ≤ 3 ∧ 1 ≤ 6 / 3 ∧ 3 ∣ 6 ∧ blockCols (6 - 1) (6 / 3) (3 - 1) = (4, 5) ∧
+      leftoverCols (6 - 1) (6 / 3) 3 = (5, 5)) ∧
+    (1 ≤ 4 ∧ 1 ≤ 6 / 4 ∧ ¬ 4 ∣ 6 ∧ blockCols (6 - 1) (6 / 4) 3 = (3, 4) ∧
+      leftoverCols (6 - 1) (6 / 4) 4 = (4, 5)) := by decide
+
+/-- hypotheses of `C17_block_mean_clipped` / `C17_last_block_bias` (`Yf.c = N − 1`, `nb ∣ N`, `Nb ≠ 0`), and the
+    two conclusions on the data: the three block estimates sum to `3·H` although the last one is
+    `(Nb−1)/Nb = 1/2` of the moment estimate over its single column (`6·Yf[0,4]·Yp[1,4] = 6·21·1`, halved). -/
+example : Yf.c = 6 - 1 ∧ 3 ∣ 6 ∧ ((6 / 3 : ℕ) : ℚ) ≠ 0 ∧ 1 ≤ 3 ∧ 1 ≤ 6 / 3 ∧
+    ∑ k ∈ range 3, (blockEst Yf Yp 6 (6 / 3) k).e 0 1 = 3 * (mulT Yf Yp).e 0 1 ∧
+    (mulT Yf Yp).e 0 1 ≠ 0 ∧
+    (blockEst Yf Yp 6 (6 / 3) 2).e 0 1 = 6 * 21 * 1 / 2 := by
+  refine ⟨rfl, by decide, by norm_num, by decide, by decide, ?_, ?_, ?_⟩
+  · exact C17_block_mean_clipped Yf Yp 6 3 0 1 rfl (by decide) (by norm_num)
+  · decide +kernel
+  · decide +kernel
+
+/-- hypotheses of `C17_fxMap_fnOf_xiOf`: `lam_d = 4/3`, `dt = 1/100` (`log(4/3)·100 ≠ 0`), records
+    `absl = 28`, `twoPi = 6`. -/
+example : Unc.lamC (1 / 100) ![4 / 3, 0] ≠ 0 ∧ (0 : ℚ) < 28 ∧ (0 : ℚ) < 6 := by
+  refine ⟨?_, by norm_num, by norm_num⟩
+  unfold Unc.lamC
+  simp only [Matrix.cons_val_zero, Matrix.cons_val_one, Complex.ofReal_zero, zero_mul, add_zero]
+  have hpos : (0 : ℝ) < Real.log (4 / 3) := Real.log_pos (by norm_num)
+  rw [← Complex.ofReal_log (by norm_num : (0 : ℝ) ≤ 4 / 3), ← Complex.ofReal_mul]
+  exact_mod_cast (mul_pos hpos (by norm_num)).ne'
+
+end ExBlocks
 
 end PV.C17
